@@ -1,17 +1,32 @@
-"""C07 - End-to-end decoding: only the routing / binding structure is decidable statically."""
+"""C07 - End-to-end decoding: only the routing / binding structure is decidable statically.
+
+The rules locate their subjects by role on the normalised code (single-definition temporaries inlined, callees
+resolved, arguments bound to the callee's parameters) and decide on the CFG:
+
+* R1  every exit of the router returns one of the three transforms under the facts (message class, verb equality,
+      URI prefix) that dominate it; no implicit None; only ValueError is raised;
+* R2  what every routing attribute of the decoder is built from;
+* R3  infeasibility of the constructor completing under rejected key material / wrong key lengths (CFG specialised
+      under the assumption);
+* R4  the client builds its requests with the transform, keys and framing the decoder undoes; generator ordering.
+
+A subject that cannot be located is reported as undecided, a located subject that does not satisfy the condition as
+violated.
+"""
 
 from __future__ import annotations
 
 import ast
+import copy
 
-from csverif.astutil import (
-    assignments_to, body_walk, compare_parts, const_eval, dotted, fn_calls, is_const, kwarg, NotConst, params, src,
-    statements,
-)
+from csverif.astutil import bind_args, body_walk, compare_parts, const_eval, dotted, fn_calls, is_none, NotConst, params, src, statements, strip_cast
 from csverif.cfg import ENTRY, EXIT
-from csverif.q import FuncView, calls_to, dominating_conditions, origin, raise_class, specialise
+from csverif.q import FuncView, dominating_conditions, inline, reaching_defs
+
+KEY_LEN = 16  # property statement: AES-128 key / HMAC key derived from sha256 halves
 
 
+# ---------------------------------------------------------------------------- generic private helpers
 def _c(node):
     try:
         return const_eval(node) if node is not None else None
@@ -19,12 +34,336 @@ def _c(node):
         return None
 
 
-def _setting_key(expr):
-    """The 'SETTING_X' subscript key inside an expression (through list()/copy wrappers)."""
-    for n in ast.walk(expr):
-        if isinstance(n, ast.Subscript) and isinstance(_c(n.slice), str) and (dotted(n.value) or "").endswith("settings"):
-            return _c(n.slice)
+def _inl(f, e):
+    """Expression e of function f with every single-definition temporary substituted (None stays None)."""
+    return None if e is None else inline(f.node, e)
+
+
+def _emit(ctx, rule, kind, where, text, verdict, detail, node=None, nontrivial=True):
+    """verdict True -> discharged, False -> violated, None -> undecided (subject not located)."""
+    if verdict is None:
+        return ctx.undecided(rule, kind, where, text, detail, node)
+    return ctx.ob(rule, kind, where, text, bool(verdict), detail, node, nontrivial=nontrivial)
+
+
+def _callee(ctx, f, e):
+    if not isinstance(e, ast.Call):
+        return None
+    try:
+        return ctx.rs.resolve_call(f, e)
+    except Exception:
+        return None
+
+
+def _fq(ctx, f, e):
+    """'module.qualname' of the package function/class a call expression resolves to, 'struct:<C type>' for a cstruct
+    constructor, the dotted external name for anything else that has one."""
+    cal = _callee(ctx, f, e)
+    if cal is None:
+        return None
+    if cal.kind == "func" and cal.func is not None:
+        return cal.func.fq
+    if cal.kind == "class":
+        return cal.fq
+    if cal.kind == "struct" and cal.struct:
+        return "struct:" + cal.struct[2]
+    if cal.kind == "external":
+        return cal.fq
     return None
+
+
+def _cls_fq(ctx, f, e):
+    """Set of package classes named by the class argument of an isinstance (a name or a tuple of names)."""
+    out = set()
+    for x in (e.elts if isinstance(e, ast.Tuple) else [e]):
+        d = dotted(x)
+        s = ctx.rs.lookup_dotted(f.module.name, d) if d else None
+        if s is None or s.kind != "class":
+            return None
+        out.add(s.fq)
+    return out
+
+
+def _fields(ctx, cls_fq):
+    """[(field, default)] of a NamedTuple-style class in declaration order (taken from the base class if the class
+    itself declares none)."""
+    node = ctx.repo.cls(cls_fq)
+    out = [(st.target.id, st.value) for st in node.body if isinstance(st, ast.AnnAssign) and isinstance(st.target, ast.Name)]
+    if out:
+        return out
+    for b in node.bases:
+        d = dotted(b)
+        s = ctx.rs.lookup_dotted(cls_fq.split(".")[0], d) if d else None
+        if s is not None and s.kind == "class":
+            r = _fields(ctx, s.fq)
+            if r:
+                return r
+    return []
+
+
+def _bind(ctx, f, call, fallback=()):
+    """Parameter/field name -> argument expression of a call to a package function, method, class or NamedTuple
+    (defaults filled in).  A `**x` argument is kept under the key '**'.  Unresolved callee: positional arguments are
+    bound to the names in `fallback`."""
+    cal = _callee(ctx, f, call)
+    star = [k.value for k in call.keywords if k.arg is None]
+    out = None
+    if cal is not None and cal.kind == "func" and cal.func is not None:
+        fn = cal.func.node
+        skip = False
+        if cal.func.cls and isinstance(call.func, ast.Attribute):
+            deco = {dotted(d) for d in getattr(fn, "decorator_list", [])}
+            recv = dotted(call.func.value)
+            s = ctx.rs.lookup_dotted(f.module.name, recv) if recv else None
+            skip = "staticmethod" not in deco and not (s is not None and s.kind == "class" and "classmethod" not in deco)
+        out = dict(bind_args(call, fn, skip_self=skip))
+        for k, v in cal.bound.items():
+            out.setdefault(k, v)
+    elif cal is not None and cal.kind == "class":
+        init = ctx.rs.class_init(cal.fq)
+        if init is not None:
+            out = dict(bind_args(call, init.node, skip_self=True))
+        else:
+            fl = _fields(ctx, cal.fq)
+            if fl and not any(isinstance(a, ast.Starred) for a in call.args):
+                out = dict(zip([n for n, _d in fl], call.args))
+                for k in call.keywords:
+                    if k.arg is not None:
+                        out[k.arg] = k.value
+                for n, d in fl:
+                    if n not in out:
+                        out[n] = None if star else d
+    if out is None:
+        if any(isinstance(a, ast.Starred) for a in call.args):
+            return {"**": star[0]} if star else {}
+        out = dict(zip(fallback, call.args))
+        for k in call.keywords:
+            if k.arg is not None:
+                out[k.arg] = k.value
+    if star:
+        out["**"] = star[0]
+    return out
+
+
+def _stores(fn):
+    """dotted target (local name or attribute chain) -> [(statement, value)] for every binding in fn.  Tuple targets are
+    bound element-wise; unpacking a non-literal value v binds element i to the synthetic expression `v[i]`; bindings
+    without a value expression (augmented assignment, loop/with targets) have value None."""
+    out = {}
+
+    def add(t, v, st):
+        if isinstance(t, (ast.Tuple, ast.List)):
+            if any(isinstance(x, ast.Starred) for x in t.elts):
+                for x in t.elts:
+                    add(x.value if isinstance(x, ast.Starred) else x, None, st)
+            elif isinstance(v, (ast.Tuple, ast.List)) and len(v.elts) == len(t.elts) and not any(isinstance(x, ast.Starred) for x in v.elts):
+                for te, ve in zip(t.elts, v.elts):
+                    add(te, ve, st)
+            else:
+                for i, te in enumerate(t.elts):
+                    add(te, None if v is None else ast.Subscript(value=v, slice=ast.Constant(value=i), ctx=ast.Load()), st)
+            return
+        d = dotted(t)
+        if d is not None:
+            out.setdefault(d, []).append((st, v))
+
+    for st in statements(fn):
+        if isinstance(st, ast.Assign):
+            for t in st.targets:
+                add(t, st.value, st)
+        elif isinstance(st, ast.AnnAssign):
+            if st.value is not None:
+                add(st.target, st.value, st)
+        elif isinstance(st, ast.AugAssign):
+            add(st.target, None, st)
+        elif isinstance(st, (ast.For, ast.AsyncFor)):
+            add(st.target, None, st)
+        elif isinstance(st, (ast.With, ast.AsyncWith)):
+            for it in st.items:
+                if it.optional_vars is not None:
+                    add(it.optional_vars, None, st)
+    for n in body_walk(fn):
+        if isinstance(n, ast.NamedExpr):
+            out.setdefault(n.target.id, []).append((FuncView.of(fn).stmt_of(n), n.value))
+    return out
+
+
+def _atoms(e, pol, out):
+    """Split a test that holds with polarity `pol` into the atomic (expression, polarity) facts it implies: negations
+    pushed inwards, `a and b` holding / `a or b` failing split (also spelled all([..]) / any([..])), bool(x) is x."""
+    while True:
+        if isinstance(e, ast.UnaryOp) and isinstance(e.op, ast.Not):
+            e, pol = e.operand, not pol
+        elif isinstance(e, ast.Call) and dotted(e.func) == "bool" and len(e.args) == 1 and not e.keywords:
+            e = e.args[0]
+        else:
+            break
+    if isinstance(e, ast.BoolOp) and isinstance(e.op, ast.And if pol else ast.Or):
+        for v in e.values:
+            _atoms(v, pol, out)
+        return
+    if isinstance(e, ast.Call) and dotted(e.func) == ("all" if pol else "any") and len(e.args) == 1 and isinstance(e.args[0], (ast.List, ast.Tuple)):
+        for v in e.args[0].elts:
+            _atoms(v, pol, out)
+        return
+    out.append((e, pol))
+
+
+def _split(f, test, pol):
+    out = []
+    _atoms(_inl(f, test), pol, out)
+    return out
+
+
+def _resolve(facts):
+    """Unit resolution on the facts: `a or b` holding with `a` known to fail yields b; `a and b` failing with `a` known
+    to hold yields not b.  (Facts are compared by their normalised text.)"""
+    facts = list(facts)
+    known = {(src(e), pol) for e, pol in facts}
+
+    def holds(v, pol):
+        at = []
+        _atoms(v, pol, at)
+        return all((src(e), p) in known for e, p in at)
+
+    for _round in range(4):
+        new = []
+        for e, pol in facts:
+            if isinstance(e, ast.BoolOp) and isinstance(e.op, ast.Or if pol else ast.And):
+                rest = [v for v in e.values if not holds(v, not pol)]
+                if len(rest) == 1:
+                    at = []
+                    _atoms(rest[0], pol, at)
+                    new += [(x, p) for x, p in at if (src(x), p) not in known]
+        if not new:
+            break
+        for x, p in new:
+            known.add((src(x), p))
+        facts += new
+    return facts
+
+
+def _facts(ctx, f, node):
+    """Atomic (expression, polarity) facts that hold whenever the statement of `node` executes: the tests of the branch
+    edges that dominate it, temporaries inlined."""
+    out = []
+    for _t, pol, test in dominating_conditions(ctx, f, node):
+        _atoms(_inl(f, test), pol, out)
+    return out
+
+
+def _tv(e, atom):
+    """Three-valued evaluation of a test; `atom(expr)` decides the leaves (True / False / None)."""
+    if isinstance(e, ast.Constant):
+        return bool(e.value)
+    if isinstance(e, ast.UnaryOp) and isinstance(e.op, ast.Not):
+        v = _tv(e.operand, atom)
+        return None if v is None else not v
+    if isinstance(e, ast.Call) and dotted(e.func) == "bool" and len(e.args) == 1 and not e.keywords:
+        return _tv(e.args[0], atom)
+    vals = None
+    if isinstance(e, ast.BoolOp):
+        vals, conj = [_tv(v, atom) for v in e.values], isinstance(e.op, ast.And)
+    elif isinstance(e, ast.Call) and dotted(e.func) in ("any", "all") and len(e.args) == 1 and isinstance(e.args[0], (ast.List, ast.Tuple)):
+        vals, conj = [_tv(v, atom) for v in e.args[0].elts], dotted(e.func) == "all"
+    if vals is not None:
+        if conj:
+            return False if any(v is False for v in vals) else True if all(v is True for v in vals) else None
+        return True if any(v is True for v in vals) else False if all(v is False for v in vals) else None
+    if isinstance(e, ast.IfExp):
+        t = _tv(e.test, atom)
+        a, b = _tv(e.body, atom), _tv(e.orelse, atom)
+        return a if t is True else b if t is False else a if a == b else None
+    return atom(e)
+
+
+def _spec(ctx, f, atom, skip=()):
+    """CFG of f with the branch edges removed that are infeasible under `atom` (tests are looked at with their
+    temporaries inlined); the test statements in `skip` are left alone."""
+    cfg = ctx.cfg(f)
+    c = copy.copy(cfg)
+    c.g = cfg.g.copy()
+    c._idom = None
+    c._ipdom = None
+    used = []
+    for n, st in cfg.stmt.items():
+        if isinstance(st, (ast.If, ast.While)) and not any(st is x for x in skip):
+            v = _tv(st.test, atom)
+            if v is None:
+                v = _tv(_inl(f, st.test), atom)
+            if v is None:
+                continue
+            used.append(st)
+            dead = cfg.edge_node(st, "false" if v else "true")
+            if c.g.has_edge(n, dead):
+                c.g.remove_edge(n, dead)
+    c.used_tests = used
+    return c
+
+
+def _raise_class(f, r):
+    """Class name of the exception a raise statement raises (through a temporary holding the instance)."""
+    e = r.exc
+    if e is None:
+        return None
+    e = _inl(f, e)
+    return dotted(e.func) if isinstance(e, ast.Call) else dotted(e)
+
+
+def _strip_encode(e):
+    """(inner expression, number of str->bytes UTF-8 encodings peeled off): x.encode(), x.encode('utf-8'),
+    str.encode(x), bytes(x, 'utf-8')."""
+    n = 0
+    while isinstance(e, ast.Call):
+        d = dotted(e.func)
+        enc = [a for a in e.args[1:]] if d in ("bytes", "str.encode") else list(e.args)
+        enc += [k.value for k in e.keywords if k.arg == "encoding"]
+        utf8 = all(isinstance(_c(a), str) and _c(a).lower().replace("-", "").replace("_", "") == "utf8" for a in enc) and not [k for k in e.keywords if k.arg != "encoding"]
+        if isinstance(e.func, ast.Attribute) and e.func.attr == "encode" and d != "str.encode" and len(e.args) <= 1 and utf8:
+            e, n = e.func.value, n + 1
+        elif d == "str.encode" and 1 <= len(e.args) <= 2 and utf8:
+            e, n = e.args[0], n + 1
+        elif d == "bytes" and len(e.args) + len(e.keywords) == 2 and len(e.args) >= 1 and utf8:
+            e, n = e.args[0], n + 1
+        else:
+            break
+    return e, n
+
+
+def _strip_decode(e):
+    n = 0
+    while isinstance(e, ast.Call) and isinstance(e.func, ast.Attribute) and e.func.attr == "decode" and not e.keywords and (
+            not e.args or (len(e.args) == 1 and isinstance(_c(e.args[0]), str) and _c(e.args[0]).lower().replace("-", "") == "utf8")):
+        e, n = e.func.value, n + 1
+    return e, n
+
+
+def _setting_key(expr):
+    """The 'SETTING_X' key of the `<config>.settings[...]` subscript inside an expression (through list()/copy
+    wrappers); None if there is not exactly one."""
+    keys = []
+    for n in ast.walk(expr):
+        if isinstance(n, ast.Subscript) and isinstance(_c(n.slice), str) and (dotted(n.value) or "").split(".")[-1] == "settings":
+            keys.append(_c(n.slice))
+    return keys[0] if len(set(keys)) == 1 else None
+
+
+def _mentions_attr(e, attr, bases):
+    return any(isinstance(n, ast.Attribute) and n.attr == attr and dotted(n.value) in bases for n in ast.walk(e))
+
+
+def _is_opaque(ctx, f, n):
+    """Is call n one whose result this module cannot see through: a package function (a helper the normaliser could not
+    inline) or something unresolvable (methods of literals excepted)?"""
+    if isinstance(n.func, ast.Attribute) and isinstance(n.func.value, (ast.Constant, ast.JoinedStr)):
+        return False
+    cal = _callee(ctx, f, n)
+    return cal is None or cal.kind in ("func", "unresolved")
+
+
+def _has_opaque_call(ctx, f, e):
+    """Could the value of the expression come from code this rule does not see?"""
+    return any(isinstance(n, ast.Call) and _is_opaque(ctx, f, n) for n in ast.walk(e))
 
 
 def run(ctx):
@@ -54,209 +393,802 @@ def run(ctx):
     ctx.import_obligations("R7", c19.r5)
 
 
+# ---------------------------------------------------------------------------- R1: routing
+_ROUTES = {
+    "self.transform_get": {("is", "c2.HttpRequest"), ("verb", "self.get_verb"), ("prefix", "self.get_uris")},
+    "self.transform_submit": {("is", "c2.HttpRequest"), ("verb", "self.submit_verb"), ("prefix", "self.submit_uri")},
+    "self.transform_response": {("is", "c2.HttpResponse")},
+}
+
+
+def _message_pred(ctx, f, param):
+    """Predicate: does an expression of f denote the routed message - the parameter, a (conditionally) parsed form of it
+    or a local holding one of those?"""
+    stores = _stores(f.node)
+    active = set()
+
+    def is_msg(e, depth=0):
+        e = strip_cast(e)
+        if depth > 8:
+            return False
+        if isinstance(e, ast.Name):
+            if e.id in active:
+                return True
+            defs = stores.get(e.id, [])
+            if e.id != param and not defs:
+                return False
+            active.add(e.id)
+            try:
+                return all(v is not None and is_msg(v, depth + 1) for _s, v in defs)
+            finally:
+                active.discard(e.id)
+        if isinstance(e, ast.IfExp):
+            return is_msg(e.body, depth + 1) and is_msg(e.orelse, depth + 1)
+        if isinstance(e, ast.Call) and _fq(ctx, f, e) == "c2.parse_raw_http":
+            b = _bind(ctx, f, e, ("data",))
+            return b.get("data") is not None and is_msg(b["data"], depth + 1)
+        if isinstance(e, ast.Call) and _is_opaque(ctx, f, e) and any(is_msg(a, depth + 1) for a in list(e.args) + [k.value for k in e.keywords]):
+            # a helper of the package applied to the message (not inlined by the normaliser): its result is taken to be
+            # the message in another form; what the helper does is not seen
+            is_msg.via_helper = True
+            return True
+        return False
+
+    is_msg.via_helper = False
+    return is_msg
+
+
+def _route_fact(ctx, f, is_msg, e, pol):
+    """Classify an atomic fact about the message: ('is'|'isnot', class), ('verb', attribute), ('prefix', attribute)."""
+    if isinstance(e, ast.Call) and dotted(e.func) == "isinstance" and len(e.args) == 2 and is_msg(e.args[0]):
+        cs = _cls_fq(ctx, f, e.args[1])
+        if cs and len(cs) == 1:
+            return ("is" if pol else "isnot", next(iter(cs)))
+        return None
+    for l, op, r in compare_parts(e):
+        if isinstance(op, ast.Eq if pol else ast.NotEq) and isinstance(l, ast.Attribute) and l.attr == "method" and is_msg(l.value):
+            d = dotted(r)
+            if d and d.startswith("self."):
+                return ("verb", d)
+    if pol and isinstance(e, ast.Call) and isinstance(e.func, ast.Attribute) and e.func.attr == "startswith" and len(e.args) == 1 and not e.keywords:
+        u = e.func.value
+        if isinstance(u, ast.Attribute) and u.attr == "uri" and is_msg(u.value):
+            d = dotted(e.args[0])
+            if d and d.startswith("self."):
+                return ("prefix", d)
+    return None
+
+
+def _exit_values(ctx, f, r):
+    """[(value expression, atomic facts)] alternatives of what return statement r returns: conditional expressions and
+    locals assigned on several paths are followed back to the values they select, each with the facts it is selected
+    under."""
+    ps = set(params(f.node))
+    out = []
+
+    def nonempty_at(name):
+        for t, pol, _n in dominating_conditions(ctx, f, r):
+            if (pol and t in (name, f"{name} is not None")) or (not pol and t == f"{name} is None"):
+                return True
+        return False
+
+    def expand(e, facts, at, depth):
+        e = strip_cast(e)
+        if depth <= 6 and isinstance(e, ast.IfExp):
+            expand(e.body, facts + _split(f, e.test, True), at, depth + 1)
+            expand(e.orelse, facts + _split(f, e.test, False), at, depth + 1)
+            return
+        if depth <= 6 and isinstance(e, ast.Name) and e.id not in ps:
+            rd = reaching_defs(ctx, f, e.id, at)
+            if rd and all(v is not None and isinstance(s, ast.stmt) for s, v in rd):
+                for st, v in rd:
+                    if isinstance(v, ast.Constant) and not v.value and at is r and nonempty_at(e.id):
+                        continue  # the placeholder default cannot be what is returned here
+                    expand(v, facts + _facts(ctx, f, st), st, depth + 1)
+                return
+        out.append((e, facts))
+
+    if r.value is None:
+        out.append((ast.Constant(value=None), _facts(ctx, f, r)))
+    else:
+        expand(r.value, _facts(ctx, f, r), r, 0)
+    return out
+
+
 def r1(ctx):
     f = ctx.repo.func("c2.C2Http.get_transform_for_http")
     cfg = ctx.cfg(f)
-    http = params(f.node)[1]
-    want = {
-        "self.transform_get": {f"isinstance({http}, HttpRequest)", f"{http}.method == self.get_verb", f"{http}.uri.startswith(self.get_uris)"},
-        "self.transform_submit": {f"isinstance({http}, HttpRequest)", f"{http}.method == self.submit_verb", f"{http}.uri.startswith(self.submit_uri)"},
-        "self.transform_response": {f"isinstance({http}, HttpResponse)"},
-    }
+    is_msg = _message_pred(ctx, f, params(f.node)[1])
     seen = set()
+    unknown = False
     for r in cfg.return_stmts():
-        d = dotted(r.value)
-        conds = {t for t, pol, _n in dominating_conditions(ctx, f, r) if pol}
-        # normalise argument order of == tests
-        norm = set()
-        for t, pol, n in dominating_conditions(ctx, f, r):
-            if not pol:
-                continue
-            cp = compare_parts(n)
-            if cp and isinstance(cp[0][1], ast.Eq):
-                a, b = sorted([src(cp[0][0]), src(cp[0][2])])
-                a2, b2 = (a, b) if a.startswith(http) else (b, a)
-                norm.add(f"{a2} == {b2}")
+        for v, facts in _exit_values(ctx, f, r):
+            d = dotted(v)
+            got = {x for x in (_route_fact(ctx, f, is_msg, e, pol) for e, pol in _resolve(facts)) if x is not None}
+            shown = sorted(f"{k} {a}" for k, a in got)
+            if d in _ROUTES:
+                seen.add(d)
+                missing = _ROUTES[d] - got
+                ctx.ob("R1", "EXIT", f, "return " + d, not missing, f"returned under {shown}; missing required conditions {sorted(f'{k} {a}' for k, a in missing)}", r)
+            elif isinstance(v, ast.Call) and _fq(ctx, f, v) == f.fq and any(is_msg(a) for a in list(v.args) + [k.value for k in v.keywords]):
+                # the router re-entered on (the parsed form of) its own message: whatever it returns there is an exit
+                # judged here
+                ctx.ob("R1", "EXIT", f, "return <router re-entered>", True, f"returns {src(v)}: the router's own result for the same message", r, nontrivial=False)
+            elif is_none(v) or (d is not None and d.startswith("self.")) or isinstance(v, ast.Constant):
+                ctx.ob("R1", "EXIT", f, "return " + src(v), False, f"returns {src(v)}: not one of the three transforms (None/other would mis-route)", r)
             else:
-                norm.add(t)
-        if d not in want:
-            ctx.ob("R1", "EXIT", f, "return " + src(r.value), False, f"returns {src(r.value)}: not one of the three transforms (None/other would mis-route)", r)
-            continue
-        seen.add(d)
-        missing = want[d] - norm
-        ctx.ob("R1", "EXIT", f, "return " + d, not missing, f"returned under {sorted(norm)}; missing required conditions {sorted(missing)}", r)
-    ctx.ob("R1", "EXIT", f, "all three routes", seen == set(want), f"routes present: {sorted(seen)}")
+                unknown = True
+                ctx.undecided("R1", "EXIT", f, "return " + src(v), f"returns {src(v)}: the routed transform is not selected by branches this rule can follow", r)
+    miss = sorted(set(_ROUTES) - seen)
+    _emit(ctx, "R1", "EXIT", f, "all three routes", True if not miss else None if unknown else False, f"routes present: {sorted(seen)}" + (f"; not found: {miss}" if miss else ""))
     ctx.ob("R1", "EXIT", f, "falls off end", not cfg.falls_off_end(), "no path returns None implicitly" if not cfg.falls_off_end() else "a path falls off the end and returns None")
     rs = [r for r in cfg.raise_stmts() if r.exc is not None]
-    ctx.ob("R1", "EXIT", f, "unrelated -> ValueError", bool(rs) and all(raise_class(r) == "ValueError" for r in rs), f"raises {[raise_class(r) for r in rs]} for unrelated messages")
+    ctx.ob("R1", "EXIT", f, "unrelated -> ValueError", bool(rs) and all(_raise_class(f, r) == "ValueError" for r in rs), f"raises {[_raise_class(f, r) for r in rs]} for unrelated messages")
     # bytes are parsed first
-    ok = any(ctx.rs.resolve_call(f, c).fq == "c2.parse_raw_http" for c in fn_calls(f.node))
-    ctx.ob("R1", "AGREE", f, "parse_raw_http(bytes)", ok, "raw bytes are parsed with parse_raw_http")
+    ok = any(_fq(ctx, f, c) == "c2.parse_raw_http" and is_msg(c) for c in fn_calls(f.node))
+    _emit(ctx, "R1", "AGREE", f, "parse_raw_http(bytes)", True if ok else None if is_msg.via_helper else False,
+          "raw bytes are parsed with parse_raw_http" if ok else "no parse_raw_http(<message>) here" + ("; the message goes through a helper this rule does not see into" if is_msg.via_helper else ""))
+
+
+# ---------------------------------------------------------------------------- R2: what the decoder is built from
+def _single(f, stores, attr):
+    """(verdict-so-far, inlined value) of the only store to attribute `attr`."""
+    vs = stores.get(attr, [])
+    if len(vs) != 1 or vs[0][1] is None:
+        return len(vs), None
+    return 1, _inl(f, vs[0][1])
+
+
+def _key_sources(ctx, f, stores, names):
+    """Where the values stored into the l-values `names` come from: 'param:<p>' for a constructor parameter,
+    'derive:<i>' for element i of derive_aes_hmac_keys(..), '?' otherwise."""
+    ps = set(params(f.node))
+    out = set()
+    for n in names:
+        if n in ps:
+            out.add("param:" + n)
+        for _st, v in stores.get(n, []):
+            v = _inl(f, v) if v is not None else None
+            d = dotted(v) if v is not None else None
+            if d in names:
+                continue
+            if d in ps:
+                out.add("param:" + d)
+            elif isinstance(v, ast.Subscript) and isinstance(_c(v.slice), int) and _fq(ctx, f, v.value) == "c2.derive_aes_hmac_keys":
+                out.add(f"derive:{_c(v.slice)}")
+            else:
+                out.add("?")
+    return out
+
+
+def _aliases(ctx, f, stores, name):
+    """l-values that hold the same value as `name` from some point on for the rest of the function: closure over plain
+    copies `a = b` after which neither side is stored to again."""
+    cfg = ctx.cfg(f)
+    out = {name}
+    changed = True
+    while changed:
+        changed = False
+        for tgt, defs in stores.items():
+            for st, v in defs:
+                d = dotted(v) if v is not None else None
+                if d is None or not cfg.has(st) or (tgt in out) == (d in out):
+                    continue
+                later = [s for x in (tgt, d) for s, _v in stores.get(x, []) if s is not st and cfg.has(s) and cfg.reaches(cfg.node(st), cfg.node(s))]
+                if not later and not cfg.reaches(cfg.node(st), cfg.node(st)):
+                    out |= {tgt, d}
+                    changed = True
+    return out
+
+
+def _beacon_keys_ctor(ctx, f, stores):
+    """(statement, {field: argument}) of the only construction of the default keys, else (None, None)."""
+    vs = stores.get("self.beacon_keys", [])
+    if len(vs) != 1 or vs[0][1] is None:
+        return None, None
+    v = _inl(f, vs[0][1])
+    if not (isinstance(v, ast.Call) and _fq(ctx, f, v) == "c2.BeaconKeys"):
+        return vs[0][0], None
+    return vs[0][0], _bind(ctx, f, v)
 
 
 def r2(ctx):
     f = ctx.repo.func("c2.C2Http.__init__")
-    attrs = {}
-    for st in statements(f.node):
-        tgt = st.targets[0] if isinstance(st, ast.Assign) and len(st.targets) == 1 else st.target if isinstance(st, ast.AnnAssign) else None
-        if tgt is not None and st.value is not None and (dotted(tgt) or "").startswith("self."):
-            attrs.setdefault(dotted(tgt), []).append(st.value)
-    want_t = {"self.transform_submit": ("SETTING_C2_POSTREQ", None, None), "self.transform_get": ("SETTING_C2_REQUEST", None, None),
+    stores = _stores(f.node)
+    want_t = {"self.transform_submit": ("SETTING_C2_POSTREQ", False, None), "self.transform_get": ("SETTING_C2_REQUEST", False, None),
               "self.transform_response": ("SETTING_C2_RECOVER", True, "output")}
     for a, (key, rev, build) in want_t.items():
-        vs = attrs.get(a, [])
-        ok = False
-        detail = f"{a} assigned {len(vs)} times"
-        if len(vs) == 1 and isinstance(vs[0], ast.Call) and ctx.rs.resolve_call(f, vs[0]).fq == "c2.HttpDataTransform":
-            c = vs[0]
-            steps = kwarg(c, "steps") if kwarg(c, "steps") is not None else (c.args[0] if c.args else None)
-            k = _setting_key(steps) if steps is not None else None
-            r = kwarg(c, "reverse") if kwarg(c, "reverse") is not None else (c.args[1] if len(c.args) > 1 else None)
-            b = kwarg(c, "build") if kwarg(c, "build") is not None else (c.args[2] if len(c.args) > 2 else None)
-            got = (k, _c(r) if r is not None else None, _c(b) if b is not None else None)
-            ok = got == (key, rev, build) or (rev is None and got == (key, False, None))
-            detail = f"built from (setting, reverse, build)={got}; required {(key, rev, build)}"
-        ctx.ob("R2", "AGREE", f, a, ok, detail)
+        n, v = _single(f, stores, a)
+        if v is None:
+            _emit(ctx, "R2", "AGREE", f, a, False if n == 0 else None, f"{a} assigned {n} times (required: built once from {key})")
+            continue
+        if not (isinstance(v, ast.Call) and _fq(ctx, f, v) == "c2.HttpDataTransform"):
+            _emit(ctx, "R2", "AGREE", f, a, None if _has_opaque_call(ctx, f, v) else False, f"{a} = {src(v)}: not a HttpDataTransform built here")
+            continue
+        b = _bind(ctx, f, v, ("steps", "reverse", "build"))
+        if "**" in b or b.get("steps") is None:
+            ctx.undecided("R2", "AGREE", f, a, f"arguments of {src(v)} cannot be bound to (steps, reverse, build)")
+            continue
+        got = (_setting_key(b["steps"]), _c(b.get("reverse")), _c(b.get("build")))
+        got = (got[0], bool(got[1]) if isinstance(got[1], (bool, int)) or got[1] is None else got[1], got[2])
+        if got[0] is None and _has_opaque_call(ctx, f, b["steps"]):
+            ctx.undecided("R2", "AGREE", f, a, f"steps argument {src(b['steps'])}: the setting it is read from is not visible")
+            continue
+        ctx.ob("R2", "AGREE", f, a, got == (key, rev, build), f"built from (setting, reverse, build)={got}; required {(key, rev, build)}")
     want_s = {"self.submit_uri": "SETTING_SUBMITURI", "self.submit_verb": "SETTING_C2_VERB_POST", "self.get_verb": "SETTING_C2_VERB_GET"}
     for a, key in want_s.items():
-        vs = attrs.get(a, [])
-        k = _setting_key(vs[0]) if len(vs) == 1 else None
-        enc = len(vs) == 1 and isinstance(vs[0], ast.Call) and isinstance(vs[0].func, ast.Attribute) and vs[0].func.attr == "encode"
-        ctx.ob("R2", "AGREE", f, a, k == key and enc, f"{a} read from {k} (required {key}) and encoded to bytes={enc}")
-    vs = attrs.get("self.get_uris", [])
-    ok = len(vs) == 1 and "bconfig.uris" in src(vs[0]) and isinstance(vs[0], ast.Call) and dotted(vs[0].func) == "tuple"
-    ctx.ob("R2", "AGREE", f, "self.get_uris", ok, f"get URIs are tuple(<encoded> bconfig.uris): {src(vs[0]) if vs else None}")
-    vs = attrs.get("self.beacon_keys", [])
-    ok = len(vs) == 1 and isinstance(vs[0], ast.Call) and dotted(vs[0].func) == "BeaconKeys" and {k.arg: dotted(k.value) for k in vs[0].keywords} == {"aes_key": "self.aes_key", "hmac_key": "self.hmac_key"}
-    ctx.ob("R2", "AGREE", f, "self.beacon_keys", ok, f"default keys built from the validated attributes: {src(vs[0]) if vs else None}")
-    vs = attrs.get("self.priv", [])
-    ctx.ob("R2", "AGREE", f, "self.priv", len(vs) == 1 and dotted(vs[0]) == "rsa_private_key", f"private key stored from its parameter: {src(vs[0]) if vs else None}")
+        n, v = _single(f, stores, a)
+        if v is None:
+            _emit(ctx, "R2", "AGREE", f, a, False if n == 0 else None, f"{a} assigned {n} times (required: once, from {key})")
+            continue
+        inner, enc = _strip_encode(v)
+        k = _setting_key(v)
+        direct = isinstance(inner, ast.Subscript) and _setting_key(inner) is not None
+        if k is None and _has_opaque_call(ctx, f, v):
+            ctx.undecided("R2", "AGREE", f, a, f"{a} = {src(v)}: the setting it is read from is not visible")
+        elif k == key and not direct and enc == 0:
+            ctx.undecided("R2", "AGREE", f, a, f"{a} = {src(v)}: read from {k}, conversion to bytes not recognised")
+        else:
+            ctx.ob("R2", "AGREE", f, a, k == key and direct and enc == 1, f"{a} read from {k} (required {key}) and encoded to bytes={enc == 1}")
+    n, v = _single(f, stores, "self.get_uris")
+    if v is None:
+        _emit(ctx, "R2", "AGREE", f, "self.get_uris", False if n == 0 else None, f"self.get_uris assigned {n} times")
+    else:
+        uris = _mentions_attr(v, "uris", ("bconfig", "self.bconfig"))
+        is_tuple = isinstance(v, ast.Call) and dotted(v.func) == "tuple"
+        encodes = any(isinstance(x, ast.Attribute) and x.attr == "encode" for x in ast.walk(v))
+        if uris and is_tuple and encodes:
+            verdict = True
+        elif not uris and _has_opaque_call(ctx, f, v):
+            verdict = None
+        elif uris and encodes and not is_tuple and not isinstance(v, (ast.List, ast.ListComp, ast.GeneratorExp, ast.Set, ast.SetComp)) and not (isinstance(v, ast.Call) and dotted(v.func) in ("list", "set", "frozenset", "map", "filter")):
+            verdict = None
+        else:
+            verdict = False
+        _emit(ctx, "R2", "AGREE", f, "self.get_uris", verdict, f"get URIs are tuple(<encoded> bconfig.uris) [from uris={uris}, tuple={is_tuple}, encoded={encodes}]: {src(v)}")
+    st, b = _beacon_keys_ctor(ctx, f, stores)
+    if b is None or "**" in b:
+        _emit(ctx, "R2", "AGREE", f, "self.beacon_keys", False if st is None else None, "default keys: construction BeaconKeys(aes_key, hmac_key) " + ("missing or ambiguous" if st is None else "not located in the stored value"))
+    else:
+        detail, verdict = [], True
+        for i, (fld, par) in enumerate((("aes_key", "aes_key"), ("hmac_key", "hmac_key"))):
+            d = dotted(b.get(fld)) if b.get(fld) is not None else None
+            if d is None:
+                verdict = False if is_none(b.get(fld)) or b.get(fld) is None else (None if verdict else verdict)
+                detail.append(f"{fld}={src(b.get(fld))}")
+                continue
+            srcs = _key_sources(ctx, f, stores, _aliases(ctx, f, stores, d))
+            need = {"param:" + par, f"derive:{i}"}
+            if not need <= srcs:
+                verdict = False if "?" not in srcs or verdict is False else None
+            detail.append(f"{fld}={d} <- {sorted(srcs)}")
+        _emit(ctx, "R2", "AGREE", f, "self.beacon_keys", verdict, "default keys built from the validated key values (constructor argument or the pair derived from aes_rand, in that order): " + "; ".join(detail))
+    n, v = _single(f, stores, "self.priv")
+    ctx.ob("R2", "AGREE", f, "self.priv", v is not None and dotted(strip_cast(v)) == "rsa_private_key", f"private key stored from its parameter: {src(v) if v is not None else None}")
+
+
+# ---------------------------------------------------------------------------- R3: key material validation
+def _truth_atom(truthy):
+    """Leaf evaluator under truthiness assumptions on dotted names (a truthy value is not None)."""
+    def atom(e):
+        d = dotted(e)
+        if d in truthy:
+            return truthy[d]
+        if isinstance(e, ast.Compare) and len(e.ops) == 1 and isinstance(e.ops[0], (ast.Is, ast.IsNot)) and is_none(e.comparators[0]):
+            if truthy.get(dotted(e.left)) is True:
+                return isinstance(e.ops[0], ast.IsNot)
+        return None
+
+    return atom
+
+
+def _badlen_atom(names):
+    """Leaf evaluator under the assumption that the l-values `names` hold a key that is not None and whose length is
+    not KEY_LEN (nothing else is known about it - it may be empty)."""
+    def atom(e):
+        if isinstance(e, ast.Compare) and len(e.ops) == 1 and isinstance(e.ops[0], (ast.Is, ast.IsNot)) and is_none(e.comparators[0]) and dotted(e.left) in names:
+            return isinstance(e.ops[0], ast.IsNot)
+        for l, op, r in compare_parts(e):
+            if isinstance(l, ast.Call) and dotted(l.func) == "len" and len(l.args) == 1 and dotted(l.args[0]) in names and _c(r) == KEY_LEN and isinstance(e, ast.Compare) and len(e.ops) == 1:
+                if isinstance(op, ast.Eq):
+                    return False
+                if isinstance(op, ast.NotEq):
+                    return True
+        return None
+
+    return atom
+
+
+def _len_tests(f):
+    """[(test statement, dotted subject)] of every branch whose test compares len(<l-value>) with KEY_LEN."""
+    out = []
+    for st in statements(f.node):
+        if isinstance(st, (ast.If, ast.While)):
+            for n in ast.walk(_inl(f, st.test)):
+                for l, _op, r in compare_parts(n):
+                    if isinstance(l, ast.Call) and dotted(l.func) == "len" and len(l.args) == 1 and _c(r) == KEY_LEN:
+                        out.append((st, dotted(l.args[0])))
+    return out
 
 
 def r3(ctx):
     f = ctx.repo.func("c2.C2Http.__init__")
     cfg = ctx.cfg(f)
+    stores = _stores(f.node)
+    key_stores = [cfg.node(s) for s, _v in stores.get("self.beacon_keys", []) if cfg.has(s)]
     # both keys -> raise; none of the three -> raise
     for label, assume in (("aes_rand and aes_key", {"aes_rand": True, "aes_key": True}),
                           ("no key material", {"aes_key": False, "aes_rand": False, "rsa_private_key": False})):
-        spec = specialise(cfg, assume)
+        spec = _spec(ctx, f, _truth_atom(assume))
         leaks = spec.reaches(ENTRY, EXIT)
         # and no key attribute is assigned on the way to the raise
-        stores = [n for n, st in cfg.stmt.items() if isinstance(st, ast.Assign) and any((dotted(t) or "") in ("self.beacon_keys",) for t in st.targets)]
-        reached = [n for n in stores if spec.reaches(ENTRY, n)]
+        reached = [n for n in key_stores if spec.reaches(ENTRY, n)]
         ctx.ob("R3", "DOM", f, f"reject: {label}", not leaks and not reached, f"with {assume} the constructor can complete={leaks}; builds beacon_keys={bool(reached)}")
-        bad = [raise_class(st) for n, st in cfg.stmt.items() if isinstance(st, ast.Raise) and spec.reaches(ENTRY, n) and raise_class(st) != "ValueError"]
+        bad = [_raise_class(f, st) for n, st in cfg.stmt.items() if isinstance(st, ast.Raise) and spec.reaches(ENTRY, n) and _raise_class(f, st) != "ValueError"]
         ctx.ob("R3", "EXIT", f, f"reject: {label} -> ValueError", not bad, f"other exception classes raised on this path: {bad}", nontrivial=False)
-    # length tests after derivation
-    derive = [n for n, st in cfg.stmt.items() if isinstance(st, ast.Assign) and isinstance(st.value, ast.Call) and ctx.rs.resolve_call(f, st.value).fq == "c2.derive_aes_hmac_keys"]
-    for attr in ("self.aes_key", "self.hmac_key"):
-        tests = []
-        for n, st in cfg.stmt.items():
-            if isinstance(st, ast.If):
-                for cj in ast.walk(st.test):
-                    if isinstance(cj, ast.Compare) and isinstance(cj.left, ast.Call) and dotted(cj.left.func) == "len" and dotted(cj.left.args[0]) == attr and isinstance(cj.ops[0], ast.NotEq) and _c(cj.comparators[0]) == 16:
-                        tests.append((n, st))
-        ok = False
-        detail = f"no `len({attr}) != 16` rejection"
-        for n, st in tests:
-            t = cfg.edge_node(st, "true")
-            raises = not cfg.reaches(t, EXIT)
-            after = all(not cfg.reaches(n, d) for d in derive)
-            keys = [k for k, s2 in cfg.stmt.items() if isinstance(s2, ast.Assign) and dotted(s2.targets[0]) == "self.beacon_keys"]
-            dom = all(cfg.dominates(n, k) for k in keys) and bool(keys)
-            ok = raises and after and dom
-            detail = f"wrong length raises={raises}; test follows the derivation from aes_rand={after}; dominates the construction of beacon_keys={dom}"
-        ctx.ob("R3", "DOM", f, f"len({attr}) == 16", ok, detail)
+    # a key of the wrong length never reaches the default keys: under "the value is not None and its length is not 16"
+    # the construction of beacon_keys is unreachable, counting only the length tests made on the final value
+    st_keys, b = _beacon_keys_ctor(ctx, f, stores)
+    tests = _len_tests(f)
+    known = set()
+    per = {}
+    for attr, fld in (("self.aes_key", "aes_key"), ("self.hmac_key", "hmac_key")):
+        d = dotted(b.get(fld)) if b and b.get(fld) is not None else None
+        per[attr] = (d, _aliases(ctx, f, stores, d) if d else set())
+        known |= per[attr][1]
+    for attr, (d, names) in per.items():
+        text = f"len({attr}) == 16"
+        if st_keys is None or not cfg.has(st_keys):
+            ctx.ob("R3", "DOM", f, text, False, "the default keys are not constructed (exactly once) in the constructor")
+            continue
+        if d is None:
+            ctx.undecided("R3", "DOM", f, text, "the value passed to BeaconKeys for this key is not an l-value this rule can follow")
+            continue
+        # a test made before a later store to the key says nothing about the value that ends up in beacon_keys
+        stale = [st for st in statements(f.node) if isinstance(st, (ast.If, ast.While)) and cfg.has(st)
+                 and any(cfg.has(s) and cfg.reaches(cfg.node(st), cfg.node(s)) for n in names for s, v in stores.get(n, []) if v is None or dotted(v) not in names)]
+        spec = _spec(ctx, f, _badlen_atom(names), skip=stale)
+        ok = not spec.reaches(ENTRY, cfg.node(st_keys))
+        early = [st for st, subj in tests if subj in names and any(st is x for x in stale)]
+        foreign = [subj for _st, subj in tests if subj not in known]
+        detail = f"key value {d} (same value as {sorted(names)}): with a non-None value of length != {KEY_LEN} the construction of beacon_keys is reachable={not ok}"
+        if early:
+            detail += f"; {len(early)} length test(s) precede a later store to the key (the derived key is not tested)"
+        handed = [src(c)[:50] for c in fn_calls(f.node) if getattr(_callee(ctx, f, c), "kind", None) == "func" and _fq(ctx, f, c) != "c2.derive_aes_hmac_keys"
+                  and any(dotted(a) in names for a in list(c.args) + [k.value for k in c.keywords])]
+        if not ok and not early and not [1 for _st, subj in tests if subj in names] and (foreign or handed):
+            ctx.undecided("R3", "DOM", f, text, detail + (f"; length tests exist on {sorted(set(map(str, foreign)))} which this rule cannot relate to the key" if foreign else "")
+                          + (f"; the key is handed to {handed}, which this rule does not see into" if handed else ""))
+        else:
+            ctx.ob("R3", "DOM", f, text, ok, detail)
+
+
+# ---------------------------------------------------------------------------- R4: client vs decoder
+def _same_value(f, stores, e, attr):
+    """Does expression e of f denote the value of attribute `attr` (the attribute itself, or - in the function that
+    stores it once - the very expression stored into it)?"""
+    if e is None:
+        return False
+    e = strip_cast(e)
+    if dotted(e) == attr:
+        return True
+    vs = stores.get(attr, [])
+    if len(vs) == 1 and vs[0][1] is not None:
+        return src(_inl(f, e)) == src(_inl(f, vs[0][1]))
+    return False
+
+
+def _decimal_bytes(e, subject):
+    """Is e the ASCII decimal representation, as bytes, of the integer l-value `subject`?  True / False (a different
+    located conversion) / None (shape not understood)."""
+    def subj(x):
+        if isinstance(x, ast.Tuple) and len(x.elts) == 1:
+            x = x.elts[0]
+        if isinstance(x, ast.Call) and dotted(x.func) == "int" and len(x.args) == 1 and not x.keywords:
+            x = x.args[0]
+        return dotted(x) == subject
+
+    if isinstance(e, ast.BinOp) and isinstance(e.op, ast.Mod) and isinstance(_c(e.left), bytes) and subj(e.right):
+        return _c(e.left) in (b"%d", b"%i", b"%u")  # any other bytes format of the id is located and not decimal
+    s, n = _strip_encode(e)
+    if n == 0 and isinstance(e, ast.Call) and isinstance(e.func, ast.Attribute) and e.func.attr == "encode" and len(e.args) == 1 and _c(e.args[0]) in ("ascii", "latin-1", "latin1"):
+        s, n = e.func.value, 1  # digits encode identically
+    if n == 1:
+        if isinstance(s, ast.Call) and dotted(s.func) == "str" and len(s.args) == 1 and not s.keywords and subj(s.args[0]):
+            return True
+        if isinstance(s, ast.JoinedStr) and len(s.values) == 1 and isinstance(s.values[0], ast.FormattedValue) and subj(s.values[0].value):
+            fv = s.values[0]
+            spec = _c(fv.format_spec.values[0]) if fv.format_spec is not None and len(fv.format_spec.values) == 1 else ("" if fv.format_spec is None else None)
+            return fv.conversion in (-1, 115, 114) and spec in ("", "d")
+        if isinstance(s, ast.BinOp) and isinstance(s.op, ast.Mod) and _c(s.left) in ("%d", "%s", "%i", "%u") and subj(s.right):
+            return True
+        if isinstance(s, ast.Call) and isinstance(s.func, ast.Attribute) and s.func.attr == "format" and _c(s.func.value) in ("{}", "{:d}", "{0}", "{0:d}") and len(s.args) == 1 and subj(s.args[0]):
+            return True
+        if isinstance(s, ast.Call) and isinstance(s.func, ast.Name) and s.func.id != "str" and len(s.args) >= 1 and subj(s.args[0]):
+            return False  # hex()/oct()/bin()/repr()/chr() ... of the id: located, not decimal
+        if isinstance(s, (ast.JoinedStr, ast.BinOp)) or (isinstance(s, ast.Call) and isinstance(s.func, ast.Attribute) and s.func.attr == "format"):
+            return False if any(dotted(x) == subject for x in ast.walk(s)) else None
+    if isinstance(e, ast.Call) and isinstance(e.func, ast.Attribute) and e.func.attr == "to_bytes" and dotted(e.func.value) == subject:
+        return False
+    return None
+
+
+def _transform_calls(ctx, f, stores):
+    """[(call, inlined call, transform attribute)] of the `<c2http>.<attr>.transform(..)` calls of f; second result: were
+    there other `.transform(..)` calls?"""
+    out, other = [], False
+    for c in fn_calls(f.node):
+        ic = _inl(f, c)
+        if isinstance(ic, ast.Call) and isinstance(ic.func, ast.Attribute) and ic.func.attr == "transform":
+            recv = ic.func.value
+            if isinstance(recv, ast.Attribute) and _same_value(f, stores, recv.value, "self.c2http"):
+                out.append((c, ic, recv.attr))
+            else:
+                other = True
+        elif isinstance(ic, ast.Call) and _is_opaque(ctx, f, ic) and any(
+                isinstance(a, ast.Attribute) and a.attr.startswith("transform_") and _same_value(f, stores, a.value, "self.c2http") for a in list(ic.args) + [k.value for k in ic.keywords]):
+            other = True  # a transform of the decoder is handed to a helper that is not seen into
+    return out, other
+
+
+def _request_ctor(ctx, f, e):
+    """(function, HttpRequest(..) call) the `request` argument of a transform call denotes: a constructor call in place or
+    the single returned value of the package method that is called."""
+    e = _inl(f, e)
+    if not isinstance(e, ast.Call):
+        return None, None
+    fq = _fq(ctx, f, e)
+    if fq == "c2.HttpRequest":
+        return f, e
+    cal = _callee(ctx, f, e)
+    if cal is not None and cal.kind == "func" and cal.func is not None:
+        g = cal.func
+        rets = [s for s in statements(g.node) if isinstance(s, ast.Return)]
+        if len(rets) == 1 and rets[0].value is not None:
+            v = _inl(g, rets[0].value)
+            if isinstance(v, ast.Call) and _fq(ctx, g, v) == "c2.HttpRequest":
+                return g, v
+        return g, None
+    return None, None
+
+
+def _check_initial_request(ctx, owner, g, rq, verb, uri, uri_text):
+    """The initial request of a client message: method is the client's verb attribute, uri the bytes of its URI
+    attribute (`uri_text`: the client keeps that attribute as text / as bytes / unknown)."""
+    text = "HttpRequest(method, uri)"
+    if g is None:
+        ctx.undecided("R4", "AGREE", owner, text, "the initial request passed to transform(...) is not a call this rule can follow")
+        return
+    if rq is None:
+        ctx.undecided("R4", "AGREE", g, text, f"{g.qualname} does not return a HttpRequest(...) built in place")
+        return
+    b = _bind(ctx, g, rq)
+    m, u = b.get("method"), b.get("uri")
+    if "**" in b or m is None or u is None:
+        ctx.undecided("R4", "AGREE", g, text, f"arguments of {src(rq)} cannot be bound to (method, uri)")
+        return
+    m_ok = dotted(strip_cast(m)) == verb
+    inner, enc = _strip_encode(u)
+    u_ok = dotted(strip_cast(inner)) == uri
+    # the URI attribute is text in the client iff the request encodes it
+    par = uri_text is None or enc == (1 if uri_text else 0)
+    ctx.ob("R4", "AGREE", g, text, m_ok and u_ok and par, f"initial request uses {verb} (found {src(m)}) and {uri} as bytes (found {src(u)}; str/bytes conversions consistent={par})", rq)
+
+
+_CLIENT_ATTRS = {"self.get_verb": ("get_verb", "SETTING_C2_VERB_GET"), "self.submit_verb": ("submit_verb", "SETTING_C2_VERB_POST"),
+                 "self.submit_uri": ("submit_uri", "SETTING_SUBMITURI")}
+
+
+def _client_attr(ctx, run, run_stores, a):
+    """(verdict, kept as text?, shown) for a verb/URI attribute of the client: it is the decoder's attribute of the same
+    role (or read from the very setting the decoder builds that attribute from)."""
+    attr, key = _CLIENT_ATTRS[a]
+    n, v = _single(run, run_stores, a)
+    if v is None:
+        return (False if n == 0 else None), None, f"<{n} stores>"
+    for cand in (run_stores[a][0][1], v):
+        inner, dec = _strip_decode(strip_cast(cand))
+        if isinstance(inner, ast.Attribute) and _same_value(run, run_stores, inner.value, "self.c2http"):
+            return inner.attr == attr and dec <= 1, dec == 1, src(v)
+    inner, enc = _strip_encode(v)
+    if isinstance(inner, ast.Subscript) and dotted(inner.value) in ("bconfig.settings", "self.bconfig.settings") and isinstance(_c(inner.slice), str):
+        return _c(inner.slice) == key and enc <= 1, enc == 0, src(v)
+    mentions = any(isinstance(x, ast.Attribute) and x.attr in ("get_verb", "submit_verb", "submit_uri", "settings") for x in ast.walk(v))
+    return (None if _has_opaque_call(ctx, run, v) and not mentions else False), None, src(v)
+
+
+def _client_message(ctx, f, stores, route, text, payload_check, verb, uri, uri_text, detail_ok):
+    calls, other = _transform_calls(ctx, f, stores)
+    if not calls:
+        if other:
+            ctx.undecided("R4", "AGREE", f, text, "the request is transformed by a call whose receiver is not an attribute of self.c2http this rule can follow (or inside a helper that is not seen into)")
+        else:
+            ctx.ob("R4", "AGREE", f, text, False, f"no request is built with self.c2http.{route}.transform(..)")
+        _check_initial_request(ctx, f, None, None, verb, uri, uri_text)
+        return
+    if any(a != route for _c0, _i, a in calls):
+        ctx.ob("R4", "AGREE", f, text, False, f"request built with {[a for _c0, _i, a in calls]} (required: self.c2http.{route})", calls[0][0])
+        return
+    if len(calls) != 1:
+        ctx.undecided("R4", "AGREE", f, text, f"{len(calls)} requests are built with self.c2http.{route}: which one is sent is not followed", calls[0][0])
+        return
+    c, ic, _a = calls[0]
+    b = _bind(ctx, f, ic, ("c2data", "request"))
+    data, rq = b.get("c2data"), b.get("request")
+    if "**" in b or data is None:
+        ctx.undecided("R4", "AGREE", f, text, f"arguments of {src(ic)} cannot be bound to (c2data, request)", c)
+        return
+    verdict, why = payload_check(data)
+    g, ctor = (None, None) if rq is None or is_none(rq) else _request_ctor(ctx, f, rq)
+    if rq is None or is_none(rq):
+        verdict, why = False, why + "; no initial request (verb/URI) passed"
+    _emit(ctx, "R4", "AGREE", f, text, verdict, detail_ok + ": " + why, c)
+    if rq is not None and not is_none(rq):
+        _check_initial_request(ctx, f, g, ctor, verb, uri, uri_text)
+
+
+def _decoder_binding(ctx, run, run_stores):
+    """(verdict, detail): the client's decoder is built from the client's configuration and session keys."""
+    n, v = _single(run, run_stores, "self.c2http")
+    text = "decoder built from the same configuration and the client's derived keys"
+    if v is None or not (isinstance(v, ast.Call) and _fq(ctx, run, v) == "c2.C2Http"):
+        return (None if v is not None and _has_opaque_call(ctx, run, v) else False), f"{text}: {src(v) if v is not None else None}"
+    raw = run_stores["self.c2http"][0][1]
+    raw = raw if isinstance(raw, ast.Call) else v
+    b = _bind(ctx, run, v, ("bconfig", "aes_key", "hmac_key", "aes_rand", "rsa_private_key"))
+    if "**" in b:
+        return None, f"arguments of {src(v)} not visible"
+    cfg_ok = b.get("bconfig") is not None and (dotted(b["bconfig"]) == "bconfig" or _same_value(run, run_stores, b["bconfig"], "self.bconfig"))
+    by_keys = all(_same_value(run, run_stores, b.get(p), f"self.{p}") for p in ("aes_key", "hmac_key")) and (b.get("aes_rand") is None or is_none(b["aes_rand"]))
+    # the client's keys are the two halves of sha256(aes_rand), which is what the decoder derives from aes_rand
+    by_rand = _same_value(run, run_stores, b.get("aes_rand"), "self.aes_rand") and all(b.get(p) is None or is_none(b[p]) for p in ("aes_key", "hmac_key"))
+    return cfg_ok and (by_keys or by_rand), f"decoder built from the same configuration={cfg_ok} and the client's derived keys={by_keys or by_rand}: {src(raw)}"
 
 
 def r4(ctx):
-    g = ctx.repo.func("client.HttpBeaconClient.get_task")
-    from csverif.q import inline as _inl
-    tr = [c for c in fn_calls(g.node) if isinstance(c.func, ast.Attribute) and c.func.attr == "transform"]
-    ok = len(tr) == 1 and dotted(tr[0].func.value) == "self.c2http.transform_get"
-    md = False
-    if ok:
-        tr = [_inl(g.node, tr[0])]
-        a = tr[0].args[0] if tr[0].args else None
-        if isinstance(a, ast.Call) and dotted(a.func) in ("C2Data", "ClientC2Data"):
-            m = kwarg(a, "metadata")
-            md = isinstance(m, ast.Call) and dotted(m.func) == "encrypt_metadata" and dotted(m.args[0]) == "self.metadata" and dotted(kwarg(m, "public_key") or (m.args[1] if len(m.args) > 1 else None)) == "self.c2http.pub"
-        rq = kwarg(tr[0], "request")
-        md = md and isinstance(rq, ast.Call) and dotted(rq.func) == "self._initial_get_request"
-    ctx.ob("R4", "AGREE", g, "GET built with transform_get", ok and md, f"check-in uses self.c2http.transform_get={ok}; carries encrypt_metadata(self.metadata, server public key) on the initial GET request={md}")
-    rec = [c for c in fn_calls(g.node) if isinstance(c.func, ast.Attribute) and c.func.attr == "iter_recover_http" and dotted(c.func.value) == "self.c2http"]
-    ctx.ob("R4", "AGREE", g, "response decoded by c2http", len(rec) == 1, "the task response is decoded by the same C2Http instance")
-    s = ctx.repo.func("client.HttpBeaconClient.send_callback")
-    tr = [c for c in fn_calls(s.node) if isinstance(c.func, ast.Attribute) and c.func.attr == "transform"]
-    ok = len(tr) == 1 and dotted(tr[0].func.value) == "self.c2http.transform_submit"
-    body = False
-    if ok:
-        tr = [_inl(s.node, tr[0])]
-        a = tr[0].args[0] if tr[0].args else None
-        if isinstance(a, ast.Call) and dotted(a.func) in ("C2Data", "ClientC2Data"):
-            idv, outv = kwarg(a, "id"), kwarg(a, "output")
-            id_ok = idv is not None and src(idv) == "str(self.beacon_id).encode()"
-            oo = outv.func.value if isinstance(outv, ast.Call) and isinstance(outv.func, ast.Attribute) and outv.func.attr == "dumps" else None
-            enc_ok = isinstance(oo, ast.Call) and dotted(oo.func) == "encrypt_packet" and any(k.arg is None and "self.c2http.beacon_keys._asdict()" in src(k.value) for k in oo.keywords)
-            pk = oo.args[0].func.value if enc_ok and isinstance(oo.args[0], ast.Call) and isinstance(oo.args[0].func, ast.Attribute) and oo.args[0].func.attr == "dumps" else None
-            pk_ok = isinstance(pk, ast.Call) and dotted(pk.func) == "CallbackPacket"
-            rq = kwarg(tr[0], "request")
-            body = id_ok and enc_ok and pk_ok and isinstance(rq, ast.Call) and dotted(rq.func) == "self._initial_post_request"
-    ctx.ob("R4", "AGREE", s, "POST built with transform_submit", ok and body,
-           f"callback uses self.c2http.transform_submit={ok}; id = decimal beacon id, output = encrypt_packet(CallbackPacket.dumps(), **c2http.beacon_keys).dumps() on the initial POST request={body}")
-    for fq, verb, uri in (("client.HttpBeaconClient._initial_get_request", "self.get_verb", "self.get_uri"), ("client.HttpBeaconClient._initial_post_request", "self.submit_verb", "self.submit_uri")):
-        f = ctx.repo.func(fq)
-        c = [c for c in fn_calls(f.node) if dotted(c.func) == "HttpRequest"]
-        ok = len(c) == 1 and dotted(kwarg(c[0], "method")) == verb and uri in src(kwarg(c[0], "uri"))
-        ctx.ob("R4", "AGREE", f, "HttpRequest(method, uri)", ok, f"initial request uses {verb} and {uri}")
     run = ctx.repo.func("client.HttpBeaconClient.run")
-    binds = {dotted(st.targets[0] if isinstance(st, ast.Assign) else st.target): src(st.value) for st in statements(run.node) if isinstance(st, (ast.Assign, ast.AnnAssign)) and st.value is not None and not isinstance(getattr(st, "targets", [None])[0], ast.Tuple)}
-    ok = binds.get("self.get_verb") == "self.c2http.get_verb" and binds.get("self.submit_verb") == "self.c2http.submit_verb" and binds.get("self.submit_uri") == "self.c2http.submit_uri.decode()"
-    ctx.ob("R4", "AGREE", run, "client verbs/uris from c2http", ok, f"get_verb={binds.get('self.get_verb')} submit_verb={binds.get('self.submit_verb')} submit_uri={binds.get('self.submit_uri')}")
-    c2 = [v for k, v in binds.items() if k == "self.c2http"]
-    ok = bool(c2) and "aes_key=self.aes_key" in c2[0] and "hmac_key=self.hmac_key" in c2[0] and c2[0].startswith("C2Http(bconfig")
-    ctx.ob("R4", "AGREE", run, "self.c2http", ok, f"decoder built from the same configuration and the client's derived keys: {c2[0] if c2 else None}")
-    # decoder: packet classes and order
+    run_stores = _stores(run.node)
+    shared, shared_detail = _decoder_binding(ctx, run, run_stores)
+    attrs = {a: _client_attr(ctx, run, run_stores, a) for a in _CLIENT_ATTRS}
+    n, guri = _single(run, run_stores, "self.get_uri")
+    # the check-in URI is one of the configured (text) URIs the decoder matches the encoded forms of
+    get_uri_text = True if guri is not None and _mentions_attr(guri, "uris", ("bconfig", "self.bconfig")) and not any(isinstance(x, ast.Attribute) and x.attr == "encode" for x in ast.walk(guri)) else None
+
+    # ---- check-in
+    g = ctx.repo.func("client.HttpBeaconClient.get_task")
+    gst = _stores(g.node)
+
+    def get_payload(data):
+        if not (isinstance(data, ast.Call) and _fq(ctx, g, data) in ("c2.C2Data", "c2.ClientC2Data")):
+            return None, f"c2data argument {src(data)} is not a C2Data(..) built in place"
+        db = _bind(ctx, g, data)
+        m = db.get("metadata")
+        if "**" in db:
+            return None, "C2Data(**..) fields not visible"
+        if m is None or is_none(m):
+            return False, "the check-in carries no metadata"
+        if not (isinstance(m, ast.Call) and _fq(ctx, g, m) == "c2.encrypt_metadata"):
+            return (None if _has_opaque_call(ctx, g, m) else False), f"metadata field is {src(m)}, not encrypt_metadata(..)"
+        mb = _bind(ctx, g, m)
+        ok = dotted(mb.get("metadata") or ast.Constant(value=0)) == "self.metadata" and dotted(mb.get("public_key") or ast.Constant(value=0)) == "self.c2http.pub"
+        return ok, f"metadata = encrypt_metadata({src(mb.get('metadata'))}, {src(mb.get('public_key'))}) (required: self.metadata, self.c2http.pub)"
+
+    _client_message(ctx, g, gst, "transform_get", "GET built with transform_get", get_payload, "self.get_verb", "self.get_uri", get_uri_text,
+                    "check-in uses self.c2http.transform_get and carries encrypt_metadata(self.metadata, server public key)")
+    rec = []
+    for c in fn_calls(g.node):
+        ic = _inl(g, c)
+        if isinstance(ic.func, ast.Attribute) and ic.func.attr in ("iter_recover_http", "recover_http"):
+            rec.append(dotted(ic.func.value))
+    _emit(ctx, "R4", "AGREE", g, "response decoded by c2http", (len(rec) == 1 and rec[0] == "self.c2http") if rec else False,
+          f"the task response is decoded by the same C2Http instance (decoder calls on {rec})")
+
+    # ---- callback
+    s = ctx.repo.func("client.HttpBeaconClient.send_callback")
+    sst = _stores(s.node)
+
+    def post_payload(data):
+        if not (isinstance(data, ast.Call) and _fq(ctx, s, data) in ("c2.C2Data", "c2.ClientC2Data")):
+            return None, f"c2data argument {src(data)} is not a ClientC2Data(..) built in place"
+        db = _bind(ctx, s, data)
+        if "**" in db:
+            return None, "ClientC2Data(**..) fields not visible"
+        idv, outv = db.get("id"), db.get("output")
+        if idv is None or is_none(idv) or outv is None or is_none(outv):
+            return False, f"id={src(idv)} output={src(outv)}: the callback must carry the beacon id and the encrypted packet"
+        id_ok = _decimal_bytes(idv, "self.beacon_id")
+        # output = encrypt_packet(<CallbackPacket>.dumps(), keys of the decoder).dumps()
+        enc = outv.func.value if isinstance(outv, ast.Call) and isinstance(outv.func, ast.Attribute) and outv.func.attr == "dumps" and not outv.args else None
+        if not (isinstance(enc, ast.Call) and _fq(ctx, s, enc) == "c2.encrypt_packet"):
+            inner = [n for n in ast.walk(outv) if isinstance(n, ast.Call) and _fq(ctx, s, n) == "c2.encrypt_packet"]
+            opaque = any(_is_opaque(ctx, s, n) for n in ast.walk(outv) if isinstance(n, ast.Call) and not any(n is y for x in inner for y in ast.walk(x)))
+            if not inner:
+                return (None if opaque else False), f"output={src(outv)}: " + ("not encrypt_packet(..).dumps()" if opaque else "the callback data is not encrypted with encrypt_packet(..)")
+            dumped = any(isinstance(n, ast.Attribute) and n.attr == "dumps" for n in ast.walk(outv) if not any(n is y for x in inner for y in ast.walk(x)))
+            return (None if opaque or dumped else False), f"output={src(outv)}: " + ("not encrypt_packet(..).dumps()" if opaque or dumped else "the encrypted packet is sent without its size frame (.dumps())")
+        eb = _bind(ctx, s, enc)
+        keys = "self.c2http.beacon_keys"
+        if "**" in eb:
+            kv = eb["**"]
+            k_ok = isinstance(kv, ast.Call) and isinstance(kv.func, ast.Attribute) and kv.func.attr == "_asdict" and dotted(kv.func.value) == keys
+            k_ok = True if k_ok else None
+        else:
+            got_keys = [dotted(eb.get(p) or ast.Constant(value=0)) for p in ("aes_key", "hmac_key")]
+            k_ok = (got_keys == [f"{keys}.aes_key", f"{keys}.hmac_key"] and (eb.get("iv") is None or dotted(eb["iv"]) in (f"{keys}.iv", "BeaconKeys.DEFAULT_AES_IV"))) or (
+                # the client's own session keys: the very values its decoder was built from (default IV)
+                shared is True and got_keys == ["self.aes_key", "self.hmac_key"] and (eb.get("iv") is None or dotted(eb["iv"]) == "BeaconKeys.DEFAULT_AES_IV"))
+        pt = eb.get("plaintext")
+        pk = pt.func.value if isinstance(pt, ast.Call) and isinstance(pt.func, ast.Attribute) and pt.func.attr == "dumps" and not pt.args else None
+        pk_ok = isinstance(pk, ast.Call) and _fq(ctx, s, pk) == "struct:CallbackPacket"
+        if pt is not None and not pk_ok and pk is None:
+            pk_ok = None if _has_opaque_call(ctx, s, pt) else False
+        parts = {"id = decimal beacon id": id_ok, "keys = c2http.beacon_keys": k_ok, "plaintext = CallbackPacket(..).dumps()": pk_ok}
+        verdict = False if any(v is False for v in parts.values()) else None if any(v is None for v in parts.values()) else True
+        return verdict, ", ".join(f"{k}: {'ok' if v else 'NOT LOCATED' if v is None else 'WRONG'}" for k, v in parts.items()) + f" [id={src(idv)}]"
+
+    _client_message(ctx, s, sst, "transform_submit", "POST built with transform_submit", post_payload, "self.submit_verb", "self.submit_uri", attrs["self.submit_uri"][1],
+                    "callback uses self.c2http.transform_submit; id = decimal beacon id, output = encrypt_packet(CallbackPacket.dumps(), **c2http.beacon_keys).dumps()")
+
+    # ---- the client's verbs / URIs are the decoder's
+    verdicts = [attrs[a][0] for a in _CLIENT_ATTRS] + [False if attrs[a][1] is True else True for a in ("self.get_verb", "self.submit_verb")]  # verbs stay bytes
+    verdict = False if any(v is False for v in verdicts) else None if any(v is None for v in verdicts) else True
+    _emit(ctx, "R4", "AGREE", run, "client verbs/uris from c2http", verdict, " ".join(f"{a[5:]}={attrs[a][2]}" for a in _CLIENT_ATTRS))
+    _emit(ctx, "R4", "AGREE", run, "self.c2http", shared, shared_detail)
+
+    _r4_decoder(ctx)
+
+
+_MUTATORS = ("setdefault", "update", "pop", "popitem", "clear", "append", "extend", "insert", "remove", "add", "discard", "__setitem__", "__delitem__")
+
+
+def _self_writes(ctx, f, depth=1):
+    """[(statement of f, text, {attribute names})] of the statements that change the state held in attributes of self:
+    stores (also into a container held in an attribute), in-place container methods and - `depth` levels deep - calls of
+    methods of the same class that do."""
+    out = []
+    for s in statements(f.node):
+        tg = list(s.targets) if isinstance(s, (ast.Assign, ast.Delete)) else [s.target] if isinstance(s, (ast.AugAssign, ast.AnnAssign)) else []
+        tg = [x for t in tg for x in (t.elts if isinstance(t, (ast.Tuple, ast.List)) else [t])]
+        if isinstance(s, ast.Expr) and isinstance(s.value, ast.Call) and isinstance(s.value.func, ast.Attribute) and s.value.func.attr in _MUTATORS:
+            tg.append(s.value.func.value)
+        attrs = set()
+        for t in tg:
+            while isinstance(t, ast.Subscript):
+                t = t.value
+            d = dotted(t) or ""
+            if d.startswith("self."):
+                attrs.add(d.split(".")[1])
+        if attrs:
+            out.append((s, src(s)[:60], attrs))
+    if depth > 0 and f.cls:
+        fv = FuncView.of(f.node)
+        for c in fn_calls(f.node):
+            cal = _callee(ctx, f, c)
+            g = cal.func if cal is not None and cal.kind == "func" else None
+            if g is not None and g.cls == f.cls and g.module is f.module and g.fq != f.fq and dotted(c.func) and dotted(c.func).startswith("self."):
+                inner = _self_writes(ctx, g, depth - 1)
+                if inner:
+                    out.append((fv.stmt_of(c), src(c)[:60], set().union(*[a for _s, _t, a in inner])))
+    return out
+
+
+def _r4_decoder(ctx):
     ir = ctx.repo.func("c2.C2Http.iter_recover_http")
     cfg = ctx.cfg(ir)
     fv = FuncView.of(ir.node)
-    ys = [n for n in body_walk(ir.node) if isinstance(n, ast.Yield)]
-    kinds = {}
-    for y in ys:
-        v = y.value
-        if isinstance(v, ast.Call):
-            cal = ctx.rs.resolve_call(ir, v)
-            if cal.kind == "struct":
-                conds = [t for t, pol, n in dominating_conditions(ctx, ir, y) if pol and t.startswith("isinstance(")]
-                kinds[cal.struct[2]] = conds
-    ok = any("ClientC2Data" in c for c in kinds.get("CallbackPacket", [])) and any("ServerC2Data" in c for c in kinds.get("TaskPacket", []))
-    ctx.ob("R4", "AGREE", ir, "packet classes", ok, f"client data -> CallbackPacket, server data -> TaskPacket: {kinds}")
-    py = [y for y in ys if isinstance(y.value, ast.Call)]
-    my = [y for y in ys if y not in py]
-    ok = bool(my) and bool(py) and all(not cfg.reaches(cfg.node(fv.stmt_of(p)), cfg.node(fv.stmt_of(m))) for p in py for m in my)
-    ctx.ob("R4", "DOM", ir, "metadata before packets", ok, "decrypted metadata is yielded before any packet of the same message" if ok else "packet yields can precede the metadata yield")
+    ys = [n for n in body_walk(ir.node) if isinstance(n, (ast.Yield, ast.YieldFrom))]
+
+    # ---- packet classes: under "the recovered data is client data" only CallbackPacket is yielded, under "server data" only TaskPacket
+    sides = {"c2.ClientC2Data": "CallbackPacket", "c2.ServerC2Data": "TaskPacket"}
+
+    def side_atom(side):
+        def atom(e):
+            if isinstance(e, ast.Call) and dotted(e.func) == "isinstance" and len(e.args) == 2:
+                cs = _cls_fq(ctx, ir, e.args[1])
+                if cs and cs <= set(sides):
+                    return side in cs
+            return None
+
+        return atom
+
+    def yielded(y, atom):
+        """{packet struct | '?'} a yield can produce under the assumption."""
+        if isinstance(y, ast.YieldFrom) or y.value is None:
+            return {"?"}
+        out = set()
+
+        def alt(e, depth=0):
+            if isinstance(e, ast.IfExp) and depth < 6:
+                t = _tv(e.test, atom)
+                if t is not False:
+                    alt(e.body, depth + 1)
+                if t is not True:
+                    alt(e.orelse, depth + 1)
+                return
+            if isinstance(e, ast.Call) and isinstance(e.func, ast.IfExp) and depth < 6:
+                for fn in (e.func.body, e.func.orelse):
+                    t = _tv(e.func.test, atom)
+                    if (fn is e.func.body and t is not False) or (fn is e.func.orelse and t is not True):
+                        alt(ast.Call(func=fn, args=e.args, keywords=e.keywords), depth + 1)
+                return
+            fq = _fq(ctx, ir, e) if isinstance(e, ast.Call) else None
+            out.add(fq[7:] if fq and fq.startswith("struct:") else "?")
+
+        alt(_inl(ir, y.value))
+        return out
+
+    packet_yields = set()
+    result = {}
+    for side, want in sides.items():
+        atom = side_atom(side)
+        spec = _spec(ctx, ir, atom)
+        got = set()
+        for y in ys:
+            st = fv.stmt_of(y)
+            if st is None or not cfg.has(st) or not spec.reaches(ENTRY, cfg.node(st)):
+                continue
+            k = yielded(y, atom) & set(sides.values())
+            if k:
+                packet_yields.add(y)
+            got |= k
+        result[side] = got
+    all_got = set().union(*result.values())
+    if not all_got:
+        _emit(ctx, "R4", "AGREE", ir, "packet classes", None if ys else False, "no yield of a CallbackPacket(..)/TaskPacket(..) built in place located" if ys else "the decoder yields nothing")
+    else:
+        ok = all(result[s] == {w} for s, w in sides.items())
+        ctx.ob("R4", "AGREE", ir, "packet classes", ok, "client data -> CallbackPacket, server data -> TaskPacket: " + ", ".join(f"{s.split('.')[1]} -> {sorted(result[s])}" for s in sides))
+
+    # ---- order of yields
+    py = [y for y in ys if y in packet_yields]
+    my = [y for y in ys if y not in packet_yields]
+    if not py:
+        ctx.undecided("R4", "DOM", ir, "metadata before packets", "packet yields not located")
+    else:
+        ok = bool(my) and all(not cfg.reaches(cfg.node(fv.stmt_of(p)), cfg.node(fv.stmt_of(m))) for p in py for m in my)
+        ctx.ob("R4", "DOM", ir, "metadata before packets", ok, "decrypted metadata is yielded before any packet of the same message" if ok else ("the metadata is never yielded" if not my else "packet yields can precede the metadata yield"))
     # the decoder is a generator: what it learns from a message (derived session keys, metadata cache) must be stored
     # before it first suspends, otherwise a consumer that takes only the first packet leaves the decoder without keys
-    late = []
-    for s in statements(ir.node):
-        tg = s.targets if isinstance(s, ast.Assign) else [s.target] if isinstance(s, (ast.AugAssign, ast.AnnAssign)) else []
-        for t in tg:
-            base = t
-            while isinstance(base, ast.Subscript):
-                base = base.value
-            if (dotted(base) or "").startswith("self.") and cfg.has(s):
-                if any(cfg.reaches(cfg.node(fv.stmt_of(y)), cfg.node(s)) for y in ys):
-                    late.append(src(s)[:60])
-    stores = [s for s in statements(ir.node) if isinstance(s, ast.Assign) and dotted(s.targets[0]) == "self.beacon_keys"]
+    writes = _self_writes(ctx, ir)
+    late = [t for st, t, _a in writes if cfg.has(st) and any(cfg.reaches(cfg.node(fv.stmt_of(y)), cfg.node(st)) for y in ys)]
+    stores = [t for _st, t, attrs in writes if "beacon_keys" in attrs]
     ctx.ob("R4", "DOM", ir, "decoder state stored before the first yield", bool(stores) and not late,
            f"{len(stores)} store(s) of the derived keys; none reachable from a yield" if stores and not late else f"state stores reachable after a yield (lost when the generator is not resumed): {late}; key stores={len(stores)}")
-    tf = [c for c in fn_calls(ir.node) if dotted(c.func) == "self.get_transform_for_http"]
-    rc = [c for c in fn_calls(ir.node) if isinstance(c.func, ast.Attribute) and c.func.attr == "recover"]
-    ok = len(tf) == 1 and len(rc) == 1 and origin(ir.node, rc[0].func.value) is tf[0] and src(rc[0].args[0]) == src(tf[0].args[0])
-    ctx.ob("R4", "AGREE", ir, "transform.recover(http)", ok, "the message is recovered with the transform selected for it" if ok else "recover is not applied with the routed transform on the same message")
-    dm = [c for c in fn_calls(ir.node) if ctx.rs.resolve_call(ir, c).fq == "c2.decrypt_metadata"]
-    ok = len(dm) == 1 and dotted(dm[0].args[1] if len(dm[0].args) > 1 else None) == "self.priv" and any(t == "self.priv" and pol for t, pol, n in dominating_conditions(ctx, ir, dm[0]))
-    ctx.ob("R4", "DOM", ir, "decrypt_metadata(..., self.priv)", ok, "metadata is decrypted only with a private key present" if ok else "metadata decryption not guarded by self.priv")
+
+    # ---- the message is recovered with the transform routed for it
+    rcs = []
+    for c in fn_calls(ir.node):
+        ic = _inl(ir, c)
+        if isinstance(ic.func, ast.Attribute) and ic.func.attr == "recover":
+            rcs.append((c, ic))
+    routed = [(c, ic) for c, ic in rcs if isinstance(ic.func.value, ast.Call) and _fq(ctx, ir, ic.func.value) == "c2.C2Http.get_transform_for_http"]
+    if not rcs:
+        ctx.undecided("R4", "AGREE", ir, "transform.recover(http)", "no .recover(..) call located in the decoder")
+    elif len(rcs) != 1 or len(routed) != 1:
+        ctx.ob("R4", "AGREE", ir, "transform.recover(http)", False, f"recover is not applied (exactly once) on the transform selected by get_transform_for_http: {[src(ic.func.value) for _c0, ic in rcs]}", rcs[0][0])
+    else:
+        c, ic = routed[0]
+        a = _bind(ctx, ir, ic, ("http",)).get("http")
+        t = _bind(ctx, ir, ic.func.value, ("http",)).get("http")
+        ok = a is not None and t is not None and src(a) == src(t)
+        ctx.ob("R4", "AGREE", ir, "transform.recover(http)", ok, "the message is recovered with the transform selected for it" if ok else f"recover({src(a)}) is applied with the transform routed for {src(t)}", c)
+
+    # ---- metadata decryption needs the private key
+    dm = [c for c in fn_calls(ir.node) if _fq(ctx, ir, c) == "c2.decrypt_metadata"]
+    if len(dm) != 1:
+        _emit(ctx, "R4", "DOM", ir, "decrypt_metadata(..., self.priv)", None if not dm and any(isinstance(y, ast.YieldFrom) or _has_opaque_call(ctx, ir, y.value or ast.Constant(value=0)) for y in my) else False,
+              f"{len(dm)} decrypt_metadata(..) calls in the decoder (required: one)")
+    else:
+        key = _bind(ctx, ir, dm[0], ("encrypted_metadata", "private_key")).get("private_key")
+        key_ok = key is not None and dotted(strip_cast(_inl(ir, key))) == "self.priv"
+        guarded = False
+        for e, pol in _facts(ctx, ir, dm[0]):
+            if pol and dotted(e) == "self.priv":
+                guarded = True
+            for l, op, r in compare_parts(e):
+                if dotted(l) == "self.priv" and is_none(r) and isinstance(op, ast.IsNot if pol else ast.Is):
+                    guarded = True
+        ctx.ob("R4", "DOM", ir, "decrypt_metadata(..., self.priv)", key_ok and guarded, "metadata is decrypted only with a private key present" if key_ok and guarded else f"metadata decryption uses self.priv={key_ok}; guarded by the presence of self.priv={guarded}", dm[0])
 
 
 def r5(ctx):
@@ -264,4 +1196,17 @@ def r5(ctx):
         from csverif import effects
     except ImportError:
         return
-    effects.check_escape(ctx, "R5", ["c2.C2Http.get_transform_for_http"], allowed={"ValueError"})
+
+    class _Escape(effects.Escape):
+        """`err = ValueError(..); raise err`: the class of a raised local is the class of the instance it was bound to
+        (the engine's may-raise summary only reads the class off a literal `raise C(..)` / `raise C`)."""
+
+        def stmt(self, f, st):
+            if isinstance(st, ast.Raise) and isinstance(st.exc, ast.Name) and st.exc.id not in params(f.node):
+                v = _inl(f, st.exc)
+                if isinstance(v, ast.Call) and dotted(v.func):
+                    st = ast.copy_location(ast.Raise(exc=ast.copy_location(v, st.exc), cause=st.cause), st)
+                    ast.fix_missing_locations(st)
+            return super().stmt(f, st)
+
+    effects.check_escape(ctx, "R5", ["c2.C2Http.get_transform_for_http"], allowed={"ValueError"}, esc=_Escape(ctx))
